@@ -104,10 +104,14 @@ LEASES = ['0s', '0s', '0s', '100s', '100s', '19d', '30d']
 RETENTIONS = [None, None, '0s', '30s', '30s', '1000s']
 
 
+# 't1' is registered under /traits; 't2' is NOT: the loader assigns its code when a server reporting it is loaded
+SRV_TRAITS = [[], [], [], ['t1'], ['t2'], ['t1', 't2']]
+
+
 def _srv_spec(rng, racks, parts, resized=False):
     return {'parent': rng.choice(racks), 'memory': rng.choice(MEMS if not resized else ['2G', '4G', '8G', '12G']),
             'cpu': rng.choice(['400%', '800%']), 'disk': rng.choice(['8G', '16G']),
-            'partition': rng.choice(parts), 'traits': rng.choice([[], [], [], ['t1']])}
+            'partition': rng.choice(parts), 'traits': rng.choice(SRV_TRAITS)}
 
 
 def _allocs(rng, parts):
@@ -116,7 +120,7 @@ def _allocs(rng, parts):
         part = part or '_default'
         out.append({'name': 't%d/a' % i, 'partition': part, 'rank': rng.choice([100, 100, 50]),
                     'memory': rng.choice(['0G', '4G']), 'cpu': '100%', 'disk': '4G',
-                    'traits': rng.choice([[], [], ['t1']]),
+                    'traits': rng.choice([[], [], [], ['t1'], ['t2']]),
                     'assignments': [{'pattern': 'p%d.*' % (i + 1), 'priority': rng.choice([1, 10, 50])}]})
     return out
 
@@ -154,8 +158,8 @@ def gen_case(rng, pid, tier):
             man['data_retention_timeout'] = ret
         if rng.random() < 0.12:
             man['schedule_once'] = True
-        if rng.random() < 0.1:
-            man['traits'] = ['t1']
+        if rng.random() < 0.18:
+            man['traits'] = rng.choice([['t1'], ['t2'], ['t2']])
         return ['app', napps[0], p, k, man]
 
     long_ = pid != 'C10'
@@ -177,8 +181,11 @@ def gen_case(rng, pid, tier):
         elif r < 0.63:
             s = rng.randint(1, nsrv)
             x = rng.random()
-            if x < 0.22:
+            if x < 0.20:
                 ops.append(['server', s, None, rng.random() < 0.8])
+            elif x < 0.27:
+                # the record exists but cannot be loaded: no data yet ("capacity not reported")
+                ops.append(['server', s, 'blank', rng.random() < 0.8])
             else:
                 spec = dict(servers[str(s)])
                 y = rng.random()
@@ -187,9 +194,10 @@ def gen_case(rng, pid, tier):
                 elif y < 0.7:
                     spec['partition'] = rng.choice(parts)
                 elif y < 0.85:
-                    spec['traits'] = rng.choice([[], ['t1']])
+                    spec['traits'] = rng.choice(SRV_TRAITS)
                 elif y < 0.93:
-                    spec['parent'] = rng.choice(racks)
+                    # another rack; 'rack:9' is a bucket that does not exist (unloadable record)
+                    spec['parent'] = rng.choice(racks + racks + ['rack:9'])
                 servers[str(s)] = spec
                 ops.append(['server', s, spec, rng.random() < 0.8])
         elif r < 0.66:
@@ -214,8 +222,21 @@ def gen_case(rng, pid, tier):
             sub = []
             for _ in range(rng.randint(1, 2)):
                 y = rng.random()
-                if y < 0.45:
+                if y < 0.35:
                     sub.append(['presence', rng.randint(1, nsrv), rng.random() < 0.4])
+                elif y < 0.47:
+                    # the server record is deleted / blanked / moved to a missing bucket / restored while no
+                    # master runs: the next master finds the previous one's records under it
+                    sv = rng.randint(1, nsrv)
+                    z = rng.random()
+                    if z < 0.25:
+                        sub.append(['server', sv, None])
+                    elif z < 0.55:
+                        sub.append(['server', sv, 'blank'])
+                    elif z < 0.8:
+                        sub.append(['server', sv, dict(servers[str(sv)], parent='rack:9')])
+                    else:
+                        sub.append(['server', sv, dict(servers[str(sv)])])
                 elif y < 0.65 and napps[0]:
                     # a record no correct master writes: a second record of an instance (double), a record
                     # of a pending / unscheduled instance (stale), or one under a server without record (s09)
@@ -651,6 +672,8 @@ def _install(w):
         def _find_placements(self, queue, servers):
             if w.enabled:
                 w.queues.append([(aid_of(a.name), a.final_rank == sch._UNPLACED_RANK) for a in queue])
+                if getattr(w, 'mon_queues', None) is not None:
+                    w.mon_queues.append([(aid_of(a.name), a.final_rank == sch._UNPLACED_RANK) for a in queue])
             return orig(self, queue, servers)
         return _find_placements
     patch(sch.Cell, '_find_placements', mk_fp)
@@ -986,6 +1009,8 @@ def monitor_c11(w, when):
         # "still offering the capacity, partition and traits of what is recorded on it"
         tot = [0.0, 0.0, 0.0]
         admits = True
+        srec = st.nodes.get('/servers/' + srv)
+        srv_traits = set((json.loads(srec.data.decode()) if srec is not None and srec.data else {}).get('traits', []))
         for app, d, ct in sched:
             man = json.loads(st.nodes['/scheduled/' + app].data.decode()) if '/scheduled/' + app in st.nodes else None
             if man is None:
@@ -993,10 +1018,14 @@ def monitor_c11(w, when):
             dem = w.loader_mod.resources(man)
             tot = [x + y for x, y in zip(tot, dem)]
             a = m2.cell.apps.get(app)
+            # own traits by NAME, straight from the stored manifest and server record (how the restarted
+            # loader encodes them is part of what is checked); allocation traits / label from the loader
+            if not set(man.get('traits', [])) <= srv_traits:
+                admits = False
             if a is not None:
                 if a.allocation.label not in s.labels:
                     admits = False
-                if a.traits != 0 and not s.traits.has(a.traits):
+                if a.allocation.traits != 0 and not s.traits.has(a.allocation.traits):
                     admits = False
         if any(x > y for x, y in zip(tot, s.init_capacity)):
             admits = False
@@ -1066,6 +1095,8 @@ def run_impl(case, pid):
         'C10': st['c10-op-with-2+-record-writes'] >= 1,
         'C11': st['c11-interesting-store'],
     }
+    for sp in SCHED_PIDS:
+        nt[sp] = nt['C09']
     run.nontrivial = bool(nt.get(pid))
     return run
 
@@ -1094,6 +1125,13 @@ def _setup(case, w):
 
 
 def _put_server(w, sid, spec):
+    if spec == 'blank':
+        # "the server is configured, but never reported its capacity": the node exists, without data
+        w.stats['server-record-blank'] += 1
+        w.zput('/servers/' + sname(sid), None)
+        return
+    if spec['parent'] == 'rack:9':
+        w.stats['server-record-missing-bucket'] += 1
     d = {'parent': spec['parent'], 'memory': spec['memory'], 'cpu': spec['cpu'], 'disk': spec['disk'],
          'traits': spec.get('traits', []), 'up_since': w.now}
     if spec.get('partition'):
@@ -1158,12 +1196,38 @@ def _start_master(w):
     w.last_sched = w.store.children('/scheduled')
 
 
+SCHED_PIDS = ('C01', 'C03', 'C05', 'C08')
+
+
+class _SchedView(object):
+    """What eng_sched's monitors need, over the cell of the real master."""
+
+    def __init__(self, w):
+        self.sch = w.sch
+        self.cell = w.m.cell
+        self.now = w.now
+        self.apps = {aid_of(n): a for n, a in w.m.cell.apps.items()}
+
+
 def _cycle(w, pid):
     w.now += 2
     w.run.op('tick %d' % w.now, None)
     _deliver_scheduled(w)
     before = {an: (a.server, a.identity) for an, a in w.m.cell.apps.items()}
+    view = snap = None
+    if pid in SCHED_PIDS:
+        # the scheduler-level properties, stated on the cell the real Master / Loader maintain
+        import eng_sched
+        view = _SchedView(w)
+        snap = eng_sched._snapshot(view)                                # pylint: disable=protected-access
+        w.mon_queues = []
     w.m.reschedule()
+    if view is not None:
+        import eng_sched
+        view = _SchedView(w)
+        snap = {k: v for k, v in snap.items() if k in view.apps}
+        eng_sched.monitors(view, pid, snap, w.mon_queues, w.run, set())
+        w.mon_queues = None
     moved = 0
     for an, a in w.m.cell.apps.items():
         b = before.get(an)
@@ -1225,9 +1289,13 @@ def _run(case, pid, run, w):
     for op in case['ops']:
         try:
             _apply(case, pid, run, w, op)
-        except _Abort:
-            # the master process dies on an unhandled exception (utils.exit_on_unhandled); a new one is elected
+        except (_Abort, AssertionError, KeyError) as exc:
+            # the master process dies on an unhandled exception (utils.exit_on_unhandled) - an `assert` of a
+            # modelled function (_Abort) or of a recorded handler (e.g. reload_server's
+            # `assert data['parent'] in self.buckets`); a new one is elected
+            w.depth = 0
             w.stats['master-died'] += 1
+            w.stats['master-died:%s' % type(exc).__name__] += 1
             died += 1
             if died > 3:
                 return
@@ -1261,6 +1329,12 @@ def _apply(case, pid, run, w, op):
             if sub[0] == 'presence':
                 if '/servers/' + sname(sub[1]) in w.store.nodes or not sub[2]:
                     _presence(w, sub[1], sub[2])
+            elif sub[0] == 'server':
+                w.stats['offline-server-record'] += 1
+                if sub[2] is None:
+                    w.zdel('/servers/' + sname(sub[1]))
+                else:
+                    _put_server(w, sub[1], sub[2])
             elif sub[0] == 'inject':
                 _, n, sid, ident, dexp = sub
                 name = w.apps_n.get(n)
@@ -1343,8 +1417,6 @@ def _apply(case, pid, run, w, op):
             w.zdel('/servers/' + sname(sid))
             w.stats['server-record-deleted'] += 1
         else:
-            if spec['parent'] not in case['setup']['racks']:
-                return
             _put_server(w, sid, spec)
             w.stats['reload'] += 1
         path = _post_event_node(w, 'servers', [sname(sid)] if listed else [])
